@@ -76,6 +76,24 @@ Theorem C15_root_rename_model :
 Proof. exact h_rename_into_self. Qed.
 Print Assumptions C15_root_rename_model.
 
+(* the partial clause, discharged for the MODEL kernel only (Model/HostFS.v: no symbolic
+   links, "." / ".." refused): a path Base/<good components> resolves, if at all, to an
+   inode reached from the export root's inode by descending through directory entries *)
+Theorem C15_model_resolution :
+  forall h bcs cs i, Forall okcomp bcs -> Forall good cs ->
+  resolve h (render (bcs ++ cs)) = Some i ->
+  exists b, walk_ino (h_inodes h) ROOT_INO bcs = Some b /\ walk_ino (h_inodes h) b cs = Some i.
+Proof. exact model_resolution_confined. Qed.
+Print Assumptions C15_model_resolution.
+
+Theorem C15_model_resolution_parent :
+  forall h bcs cs d dm ents name, Forall okcomp bcs -> Forall good cs -> cs <> [] ->
+  resolve_parent h (render (bcs ++ cs)) = Some (d, dm, ents, name) ->
+  exists b, walk_ino (h_inodes h) ROOT_INO bcs = Some b /\
+            walk_ino (h_inodes h) b (removelast cs) = Some d /\ name = last cs [].
+Proof. exact model_parent_confined. Qed.
+Print Assumptions C15_model_resolution_parent.
+
 (* 4: the filters *)
 Theorem C15_session_filter_walk :
   forall (H : Type) (hc : H -> hcall -> H * hresult) base s fid newfid names,
@@ -151,3 +169,10 @@ Example C15_filter_hyps :
   valid_path [nm_a; DOTDOT] = (-1)%Z /\ valid_path [[97; 47; 98]] = (-1)%Z /\ has_sep [97; 92; 98] = true.
 Proof. vm_compute. auto. Qed.
 Print Assumptions C15_filter_hyps.
+
+(* C15_model_resolution's hypothesis is satisfiable: /S/export/sentinel-free path into the export *)
+Example C15_model_resolution_hyps :
+  Forall good [nm_a] /\
+  resolve (fst (run hcall_posix (impl_alg sandbox_base) (init (sandbox 18)) demo_ops)).(u_host) (render ([bS; b_export] ++ [nm_b])) = Some 6.
+Proof. split; [apply forallb_good; reflexivity|vm_compute; reflexivity]. Qed.
+Print Assumptions C15_model_resolution_hyps.
